@@ -1124,7 +1124,11 @@ impl<'a> Visitor<'a, Result<Expr>> for TryIntoExprVisitor<'a> {
             "variance" => Expr::var(flat_args[0].clone()),
             "stddev" if distinct => Expr::std_distinct(flat_args[0].clone()),
             "stddev" => Expr::std(flat_args[0].clone()),
-            _ => todo!(),
+            _ => {
+                return Err(Error::other(format!(
+                    "the function {function_name} is not supported"
+                )))
+            }
         })
     }
 
